@@ -1124,3 +1124,86 @@ func TestE2Files(t *testing.T) {
 		}
 	})
 }
+
+// TestE2Cluster: a cluster job mode end to end.  The submit command of the
+// slurm job mode is replaced by a script that runs the generated job script
+// in the background, so the remote job manager, its job scripts (C18), its
+// --maxjobs limit (C12) and its journal handling (C11) are exercised with
+// real processes.
+func TestE2Cluster(t *testing.T) {
+	root := workRoot(t)
+	propOverride = "C12"
+	defer func() { propOverride = "" }()
+	rapid.Check(t, func(t *rapid.T) {
+		prog := mrogen.GenProgram(t, e2Cfg())
+		for k := range excluded {
+			delete(excluded, k)
+		}
+		c, done := newE2(t, root, "e2clu", prog, "C12", 25)
+		if c == nil {
+			return
+		}
+		defer done()
+		cl := filepath.Join(c.Dir, "cluster")
+		os.MkdirAll(cl, 0o755)
+		sbatch := "#!/bin/sh\nf=$(mktemp \"" + cl + "/job.XXXXXX\")\ncat > \"$f\"\n(setsid sh \"$f\" > \"$f.out\" 2>&1 &)\necho $$\n"
+		os.WriteFile(filepath.Join(cl, "sbatch"), []byte(sbatch), 0o755)
+		tmpl := "#!/usr/bin/env bash\n#SBATCH -J __MRO_JOB_NAME__\n#SBATCH --cpus-per-task=__MRO_THREADS__\n#SBATCH --mem=__MRO_MEM_GB__G\n#SBATCH -o __MRO_STDOUT__\n#SBATCH -e __MRO_STDERR__\n\n__MRO_CMD__\n"
+		os.WriteFile(filepath.Join(c.Dir, "slurm.template"), []byte(tmpl), 0o644)
+		maxJobs := rapid.IntRange(1, 4).Draw(t, "maxjobs")
+		c.Plan.SleepMs = rapid.SampledFrom([]int{10, 30}).Draw(t, "jobMs")
+		c.Plan.Write(c.Dir)
+		os.Setenv("PATH", cl+":"+os.Getenv("PATH"))
+		defer os.Setenv("PATH", strings.TrimPrefix(os.Getenv("PATH"), cl+":"))
+		p, err := c.Start("--jobmode="+filepath.Join(c.Dir, "slurm.template"), fmt.Sprintf("--maxjobs=%d", maxJobs), "--jobinterval=0")
+		if err != nil {
+			t.Fatalf("INFRA: %v", err)
+		}
+		if rc := p.Wait(180 * time.Second); rc != 0 {
+			fail(t, "C12", "cluster-run-fails", "--maxjobs=%d: mrp exited with %d\n%s\n%s", maxJobs, rc, stats.Trunc(p.Log(), 3000), c.describe())
+		}
+		c.checkFinal(t, "C01")
+		recs := c.Ledger()
+		got, err := ledgerMultiset(c.prog, recs, false)
+		if err != nil {
+			t.Fatalf("INFRA: %v", err)
+		}
+		if d := compareMultisets(modelMultiset(c.model), got); d != "" {
+			fail(t, "C03", "e2-job-multiset-differs", "cluster mode: %s\n%s", d, c.describe())
+		}
+		// jobs that went through the submit command never exceed --maxjobs
+		submitted, _ := filepath.Glob(filepath.Join(cl, "job.*.out"))
+		type ev struct {
+			t int64
+			d int
+		}
+		var evs []ev
+		for _, r := range recs {
+			evs = append(evs, ev{r.Start, 1}, ev{r.End, -1})
+		}
+		sort.Slice(evs, func(i, j int) bool {
+			if evs[i].t != evs[j].t {
+				return evs[i].t < evs[j].t
+			}
+			return evs[i].d < evs[j].d
+		})
+		run, maxRun := 0, 0
+		for _, e := range evs {
+			run += e.d
+			if run > maxRun {
+				maxRun = run
+			}
+		}
+		// (local preflight stages do not go through the submit command)
+		if len(submitted) == len(recs) && maxRun > maxJobs {
+			fail(t, "C12", "maxjobs-exceeded", "--maxjobs=%d but %d stage processes ran at the same time\n%s", maxJobs, maxRun, c.describe())
+		}
+		cls := []string{"e2-cluster", fmt.Sprintf("maxjobs:%d", maxJobs)}
+		if maxRun > 1 {
+			cls = append(cls, "jobs-overlapped")
+		}
+		stats.Case("C12", maxRun > 1, stats.Digest(c.src, maxJobs), cls, func() any {
+			return map[string]any{"program": stats.Trunc(c.src, 600), "maxjobs": maxJobs, "max_running": maxRun, "submitted": len(submitted)}
+		})
+	})
+}
